@@ -211,8 +211,8 @@ Section Subkeys.
     destruct (Nat.eqb n 8); reflexivity.
   Qed.
 
-  Hypothesis E_len : forall x, length (E x) = n.
-  Hypothesis E_wf : forall x, wf_bytes (E x).
+  Hypothesis E_len : forall x, length x = n -> length (E x) = n.
+  Hypothesis E_wf : forall x, length x = n -> wf_bytes x -> wf_bytes (E x).
 
   (* New: the subkeys are those of the standard; ci and digest are zero blocks; p = 0 *)
   Theorem cm_new_spec :
@@ -222,7 +222,8 @@ Section Subkeys.
     replace (Nat.eqb n 8 || Nat.eqb n 16) with true
       by (destruct n_ok as [-> | ->]; reflexivity).
     fold (zeros n). set (L := E (zeros n)).
-    assert (HL : wf_bytes L /\ length L = n) by (split; [apply E_wf | apply E_len]).
+    assert (HL : wf_bytes L /\ length L = n)
+      by (split; [apply E_wf; [apply length_zeros | apply wf_zeros] | apply E_len, length_zeros]).
     destruct HL as [HLwf HLlen].
     pose proof (dbl_go L HLwf HLlen) as H1.
     destruct (shift1_go L) as [s1 c1]. cbv zeta. rewrite H1.
@@ -235,7 +236,8 @@ Section Subkeys.
     length (fst (cmac_subkeys E n)) = n /\ length (snd (cmac_subkeys E n)) = n.
   Proof.
     unfold cmac_subkeys. cbn [fst snd].
-    destruct (cmac_dbl_wf_len (E (zeros n)) (E_wf _) (E_len _)) as [Hwf Hlen].
+    destruct (cmac_dbl_wf_len (E (zeros n)) (E_wf _ (length_zeros n) (wf_zeros n)) (E_len _ (length_zeros n)))
+      as [Hwf Hlen].
     split; [exact Hlen|]. now apply cmac_dbl_wf_len.
   Qed.
 End Subkeys.
@@ -251,42 +253,27 @@ Qed.
 (* ================================================================== *)
 (* streaming *)
 
-Inductive cmac_op : Type :=
-| OpWrite (data : list N)
-| OpSum (inp : list N)
-| OpReset.
-
-(* the bytes written since the last Reset *)
-Fixpoint written_acc (acc : list N) (ops : list cmac_op) : list N :=
-  match ops with
-  | [] => acc
-  | OpWrite data :: r => written_acc (acc ++ data) r
-  | OpSum _ :: r => written_acc acc r
-  | OpReset :: r => written_acc [] r
-  end.
-Definition written (ops : list cmac_op) : list N := written_acc [] ops.
-
 Section Stream.
   Variable E : list N -> list N.
   Variable n : nat.
   Hypothesis n_pos : (0 < n)%nat.
-  Hypothesis E_len : forall x, length (E x) = n.
+  Hypothesis E_len : forall x, length x = n -> length (E x) = n.
   Variables K1 K2 : list N.
   Hypothesis K1_len : length K1 = n.
   Hypothesis K2_len : length K2 = n.
 
-  Fixpoint cm_run (d : cmst) (ops : list cmac_op) : cmst :=
-    match ops with
-    | [] => d
-    | OpWrite data :: r => cm_run (cm_write E d data) r
-    | OpSum inp :: r => cm_run (snd (cm_sum E d inp)) r
-    | OpReset :: r => cm_run (cm_reset d) r
-    end.
+  (* SP 800-38B 6.2 steps 3-7 on the last block: what is encrypted last *)
+  Definition final_in (C pending : list N) : list N :=
+    if Nat.eqb (length pending) n then xor_bytes (xor_bytes pending K1) C
+    else xor_bytes (xor_bytes (pending ++ 0x80 :: zeros (n - length pending - 1)) K2) C.
+  Definition final (C pending : list N) : list N := E (final_in C pending).
 
-  (* SP 800-38B 6.2 steps 3-7 on the last block *)
-  Definition final (C pending : list N) : list N :=
-    if Nat.eqb (length pending) n then E (xor_bytes (xor_bytes pending K1) C)
-    else E (xor_bytes (xor_bytes (pending ++ 0x80 :: zeros (n - length pending - 1)) K2) C).
+  Lemma final_in_length C pending : (length pending <= n)%nat -> length (final_in C pending) = n.
+  Proof.
+    intros H. unfold final_in. destruct (Nat.eqb_spec (length pending) n) as [He|Hne].
+    - now rewrite !length_xor_bytes.
+    - rewrite !length_xor_bytes, app_length. cbn [length]. rewrite length_zeros. lia.
+  Qed.
 
   (* the tag of (blocks already chained into C) ++ pending ++ rest, byte by byte *)
   Fixpoint tag (C pending rest : list N) : list N :=
@@ -303,11 +290,12 @@ Section Stream.
     tag C pending rest = cmac_loop E n K1 K2 C (chunks n (pending ++ rest)).
   Proof.
     induction rest as [|c r IH]; intros C pending Hp.
-    - rewrite app_nil_r. cbn [tag]. unfold final.
+    - rewrite app_nil_r. cbn [tag]. unfold final, final_in.
       destruct pending as [|x p'].
       + cbn [chunks_nil length]. destruct (Nat.eqb_spec 0 n); [lia|].
         rewrite chunks_nil. cbn [cmac_loop app]. now rewrite Nat.sub_0_r.
-      + rewrite chunks_single by (cbn [length] in *; lia). cbn [cmac_loop]. reflexivity.
+      + rewrite chunks_single by (cbn [length] in *; lia). cbn [cmac_loop].
+        destruct (Nat.eqb (length (x :: p')) n); reflexivity.
     - cbn [tag]. destruct (Nat.eqb_spec (length pending) n) as [Hfull|Hnot].
       + rewrite chunks_app_block by assumption.
         destruct (chunks_cons_nonempty n c r) as (c0 & cs & Hcs).
@@ -335,9 +323,10 @@ Section Stream.
     intros [Hk1 Hk2 HC Hci Hp Hle Hdg].
     unfold cm_write_byte. rewrite Hci, Hp, length_xor_bytes, HC.
     destruct (Nat.leb_spec n (length pending)) as [Hfull|Hnot].
-    - exists (E (xor_bytes C pending)), [c]. split.
+    - assert (HE : length (E (xor_bytes C pending)) = n) by (apply E_len; now rewrite length_xor_bytes).
+      exists (E (xor_bytes C pending)), [c]. split.
       + constructor; cbn [cm_k1 cm_k2 cm_ci cm_digest cm_p length]; auto; try lia.
-        rewrite xor_at_spec by (rewrite E_len; lia). reflexivity.
+        rewrite xor_at_spec by lia. reflexivity.
       + intros rest. cbn [tag]. destruct (Nat.eqb_spec (length pending) n); [reflexivity|lia].
     - exists C, (pending ++ [c]). split.
       + constructor; cbn [cm_k1 cm_k2 cm_ci cm_digest cm_p]; auto.
@@ -363,31 +352,35 @@ Section Stream.
   Lemma sum_inv d C pending inp :
     Inv d C pending ->
     fst (cm_sum E d inp) = inp ++ final C pending /\
-    Inv (snd (cm_sum E d inp)) C pending /\
-    cm_ci (snd (cm_sum E d inp)) = cm_ci d /\ cm_p (snd (cm_sum E d inp)) = cm_p d /\
-    cm_k1 (snd (cm_sum E d inp)) = cm_k1 d /\ cm_k2 (snd (cm_sum E d inp)) = cm_k2 d.
+    Inv (snd (cm_sum E d inp)) C pending.
   Proof.
     intros [Hk1 Hk2 HC Hci Hp Hle Hdg].
-    unfold cm_sum. cbn [fst snd cm_ci cm_p cm_k1 cm_k2].
-    split; [|split; [constructor; cbn [cm_k1 cm_k2 cm_ci cm_digest cm_p]; auto|auto]].
-    f_equal. unfold final. rewrite Hp, Hdg, Hci, Hk1, Hk2, length_xor_bytes, HC.
-    rewrite (skipn_all2 (cm_digest d)) by lia. rewrite app_nil_r.
-    destruct (Nat.ltb_spec (length pending) n) as [Hshort|Hfull];
-      destruct (Nat.eqb_spec (length pending) n) as [He|Hne]; try lia.
-    - (* incomplete last block: 10* padding and K2 *)
-      f_equal. rewrite xor_go_eq by (rewrite length_xor_bytes; lia).
-      rewrite xor_bytes_right_comm.
-      rewrite xor_at_pending by (rewrite length_xor_bytes; lia).
-      set (P := pending ++ 128 :: zeros (n - length pending - 1)).
-      assert (HP : length P = n) by (unfold P; rewrite app_length; cbn [length]; rewrite length_zeros; lia).
-      rewrite (xor_bytes_comm (xor_bytes P K2) C) by (rewrite length_xor_bytes; lia).
-      rewrite xor_bytes_assoc by lia. rewrite xor_bytes_right_comm.
-      unfold P. change (128 :: zeros (n - length pending - 1)) with ([128] ++ zeros (n - length pending - 1)).
-      rewrite app_assoc, xor_bytes_zeros_tail. reflexivity.
-    - (* complete last block: K1 *)
-      f_equal. rewrite xor_go_eq by (rewrite length_xor_bytes; lia).
-      rewrite (xor_bytes_comm (xor_bytes pending K1) C) by (rewrite length_xor_bytes; lia).
-      now rewrite xor_bytes_assoc by lia.
+    assert (Hdgst :
+      (let short := (cm_p d <? length (cm_digest d))%nat in
+       let k := if short then cm_k2 d else cm_k1 d in
+       let dg := xor_go (cm_ci d) k ++ skipn (length (cm_ci d)) (cm_digest d) in
+       if short then xor_at dg (cm_p d) 0x80 else dg) = final_in C pending).
+    { cbv zeta. unfold final_in. rewrite Hp, Hdg, Hci, Hk1, Hk2, length_xor_bytes, HC.
+      rewrite (skipn_all2 (cm_digest d)) by lia. rewrite app_nil_r.
+      destruct (Nat.ltb_spec (length pending) n) as [Hshort|Hfull];
+        destruct (Nat.eqb_spec (length pending) n) as [He|Hne]; try lia.
+      - (* incomplete last block: 10* padding and K2 *)
+        rewrite xor_go_eq by (rewrite length_xor_bytes; lia).
+        rewrite xor_bytes_right_comm.
+        rewrite xor_at_pending by (rewrite length_xor_bytes; lia).
+        set (P := pending ++ 128 :: zeros (n - length pending - 1)).
+        assert (HP : length P = n) by (unfold P; rewrite app_length; cbn [length]; rewrite length_zeros; lia).
+        rewrite (xor_bytes_comm (xor_bytes P K2) C) by (rewrite length_xor_bytes; lia).
+        rewrite xor_bytes_assoc by lia. rewrite xor_bytes_right_comm.
+        unfold P. change (128 :: zeros (n - length pending - 1)) with ([128] ++ zeros (n - length pending - 1)).
+        rewrite app_assoc, xor_bytes_zeros_tail. reflexivity.
+      - (* complete last block: K1 *)
+        rewrite xor_go_eq by (rewrite length_xor_bytes; lia).
+        rewrite (xor_bytes_comm (xor_bytes pending K1) C) by (rewrite length_xor_bytes; lia).
+        now rewrite xor_bytes_assoc by lia. }
+    unfold cm_sum. cbv zeta in Hdgst |- *. rewrite Hdgst. cbn [fst snd]. split; [reflexivity|].
+    constructor; cbn [cm_k1 cm_k2 cm_ci cm_digest cm_p]; auto.
+    apply E_len. now apply final_in_length.
   Qed.
 
   Lemma reset_inv d C pending : Inv d C pending -> Inv (cm_reset d) (zeros n) [].
@@ -406,7 +399,7 @@ Section Stream.
     exists C pending, Inv d C pending /\ forall rest, tag C pending rest = tag (zeros n) [] (msg ++ rest).
 
   Lemma run_tracks ops : forall d msg,
-    Tracks d msg -> Tracks (cm_run d ops) (written_acc msg ops).
+    Tracks d msg -> Tracks (cm_run E d ops) (written_acc msg ops).
   Proof.
     induction ops as [|op ops IH]; intros d msg HT; [exact HT|].
     destruct op as [data|inp|]; cbn [cm_run written_acc]; apply IH.
@@ -435,8 +428,8 @@ End Stream.
 Section Main.
   Variable E : list N -> list N.
   Variable n : nat.
-  Hypothesis E_len : forall x, length (E x) = n.
-  Hypothesis E_wf : forall x, wf_bytes (E x).
+  Hypothesis E_len : forall x, length x = n -> length (E x) = n.
+  Hypothesis E_wf : forall x, length x = n -> wf_bytes x -> wf_bytes (E x).
 
   Lemma cm_new_ok_size d0 : cm_new E n = Ok d0 -> n = 8%nat \/ n = 16%nat.
   Proof.
@@ -488,3 +481,30 @@ Section Main.
     unfold cm_size, lenN. now rewrite (inv_dg _ _ _ _ _ _ HI).
   Qed.
 End Main.
+
+(* ================================================================== *)
+(* what a history has written *)
+
+Lemma written_acc_app acc ops1 ops2 :
+  written_acc acc (ops1 ++ ops2) = written_acc (written_acc acc ops1) ops2.
+Proof.
+  revert acc; induction ops1 as [|op ops1 IH]; intros acc; [reflexivity|].
+  destruct op; cbn [app written_acc]; apply IH.
+Qed.
+
+(* only Write calls: the concatenation of the pieces, however the message was cut *)
+Lemma written_writes chunks : written (map OpWrite chunks) = stream_of chunks.
+Proof.
+  unfold written, stream_of. rewrite <- (app_nil_l (concat chunks)). generalize (@nil N) as acc.
+  induction chunks as [|c r IH]; intros acc; cbn [map written_acc concat].
+  - now rewrite app_nil_r.
+  - rewrite IH. now rewrite app_assoc.
+Qed.
+
+(* a Sum call anywhere in the history is invisible afterwards *)
+Lemma written_sum ops1 inp ops2 : written (ops1 ++ OpSum inp :: ops2) = written (ops1 ++ ops2).
+Proof. unfold written. rewrite !written_acc_app. reflexivity. Qed.
+
+(* Reset forgets everything before it *)
+Lemma written_reset ops1 ops2 : written (ops1 ++ OpReset :: ops2) = written ops2.
+Proof. unfold written. rewrite written_acc_app. reflexivity. Qed.
